@@ -8,7 +8,7 @@ Driver for C01.  An abstract case is one protocol line
   mode   = parse | multi | flat | read | readmulti | readflat | readflatgz
   record = name mol(0-3) topo(0/1) division(0-17) date pads originTrail blockLen perLine
            definition bs accession bs version bs keywords bs source bs organism bs
-           nrefs { range authors bs title bs journal bs pubmed bs remark bs }*
+           nrefs { range bs authors bs title bs journal bs pubmed bs remark bs }*
            nextras { key text bs }*
            nfeat { key loc bs nq { key value bs }* }*
            seq
@@ -38,14 +38,14 @@ def rep {α : Type} (p : P α) : Nat → P (List α)
   | n + 1 => do let a ← p; let as ← rep p n; return a :: as
 
 def pRef : P (RRef × RefLayout) := do
-  let range ← tokStr
+  let range ← tokStr; let gb ← tokNats
   let authors ← tokStr; let ab ← tokNats
   let title ← tokStr; let tb ← tokNats
   let journal ← tokStr; let jb ← tokNats
   let pubmed ← tokStr; let pb ← tokNats
   let remark ← tokStr; let rb ← tokNats
   return ({ range, authors, title, journal, pubmed, remark },
-          { authors := ab, title := tb, journal := jb, pubmed := pb, remark := rb })
+          { range := gb, authors := ab, title := tb, journal := jb, pubmed := pb, remark := rb })
 
 def pQual : P ((Str × Str) × List Nat) := do
   let k ← tokStr; let v ← tokStr; let b ← tokNats
@@ -165,16 +165,12 @@ def judge (f out : List String) : Verdict :=
       && (if single then c.recs.length == 1 && c.lay.header.isNone else true)
       && (flat == c.lay.header.isSome)
       && pairs.all (fun p => noSlashEnd p.1 p.2)
-    let kf := (if pairs.any (fun p => locLagTrap p.1 p.2) then " kf:C01-multiline-loc-noqual" else "")
-      ++ (if pairs.any (fun p => slashContTrap p.1 p.2) then " kf:C01-continuation-slash" else "")
-      ++ (if pairs.any (fun p => firstWordTrap p.1 p.2) then " kf:C01-firstword-dispatch" else "")
-      ++ (if c.recs.any nameTopoTrap then " kf:C01-locus-name-topology" else "")
     let nfeat := (c.recs.map (·.features.length)).sum
     let multiloc := pairs.any (fun p => (zipF p.1.features p.2.feats).any (fun q => (cutLoc q.2.loc q.1.loc).length > 1))
     let cls := c.mode ++ "/r" ++ toString c.recs.length
       ++ (if c.lay.finalNewline then "/nl" else "/nonl")
       ++ (if nfeat == 0 then "/f0" else if nfeat ≤ 5 then "/f1-5" else "/f6+")
-      ++ (if multiloc then "/multiloc" else "") ++ kf
+      ++ (if multiloc then "/multiloc" else "")
     { corr := outN == m, judge := if inDom then some (outN == expected) else none, cls := cls
       detail := if outN == m && outN == expected then "" else
         "model: " ++ lineOf (m.map fun x => if x.length > 300 then (x.take 300).toString ++ "…" else x) ++ "  expected: "
